@@ -2,7 +2,7 @@
 
 Hypothesis RuleBasedStateMachine.  State: a list of results, each with its *recipe* (expression tree
 over source texts).  Rules: parse(text), and_(i, j), or_(i, j), reparse(i) (feeds str(result) back into
-parse_marker), variant(i) (re-parses the same source with the atoms' operand order flipped, '3.10' <->
+parse_marker), permuted(i) (same condition, every and/or and operand pair written in the opposite order), variant(i) (re-parses the same source with the atoms' operand order flipped, '3.10' <->
 '3.10.0', other quotes/blanks - equal-but-differently-built operands).  Texts come from a small atom
 pool so that cache keys collide.
 Oracle: every step's warm observation (text, truth table, is_any/is_empty), made with shared caches as
@@ -110,7 +110,24 @@ def recipe_of(ops, k):
         return ["reparse", recipe_of(ops, op[1])]
     if op[0] == "variant":
         return shift_recipe(recipe_of(ops, op[1]), op[2])
+    if op[0] == "perm":
+        return perm_recipe(recipe_of(ops, op[1]))
     raise harness.HarnessError(str(op))
+
+
+def perm_tree(t):
+    if t[0] == "atom":
+        return t
+    return [t[0], [perm_tree(c) for c in reversed(t[1])]]
+
+
+def perm_recipe(r):
+    """The same condition with every and/or written in the opposite order (commuted operands)."""
+    if r[0] == "parse":
+        return ["parse", perm_tree(r[1]), r[2]]
+    if r[0] == "reparse":
+        return ["reparse", perm_recipe(r[1])]
+    return [r[0], perm_recipe(r[2]), perm_recipe(r[1])]
 
 
 def shift_recipe(r, shift):
@@ -150,6 +167,8 @@ def apply_op(ops, results, op):
         return parse_marker(str(results[op[1]]))
     if op[0] == "variant":
         return compute(shift_recipe(recipe_of(ops, op[1]), op[2]))
+    if op[0] == "perm":
+        return compute(perm_recipe(recipe_of(ops, op[1])))
     raise harness.HarnessError(str(op))
 
 
@@ -210,6 +229,11 @@ def make_machine(acc, max_steps):
         def variant(self, data, shift):
             self._do(["variant", data.draw(st.integers(0, len(self.results) - 1)), shift])
 
+        @precondition(lambda self: len(self.results) >= 1)
+        @rule(data=st.data())
+        def permuted(self, data):
+            self._do(["perm", data.draw(st.integers(0, len(self.results) - 1))])
+
         def teardown(self):
             if not self.ops:
                 return
@@ -219,7 +243,7 @@ def make_machine(acc, max_steps):
 
 
 def tasks(tier, seed):
-    n = 320 if tier == "quick" else 6400
+    n = 640 if tier == "quick" else 9600
     shards = 32 if tier == "quick" else 128
     steps = 30 if tier == "quick" else 50
     t = [(MOD, "machines", (n // shards, seed * 1_000_003 + i, steps)) for i in range(shards)]
@@ -256,11 +280,11 @@ def fresh(acc, seed, n):
                     tr = [rnd.choice(["and", "or"]), [tr, ["atom", rnd.randrange(len(BASE)), rnd.randrange(4)]]]
                 ops.append(["parse", tr])
             else:
-                kind = rnd.choice(["and", "or", "reparse", "variant"])
+                kind = rnd.choice(["and", "or", "reparse", "variant", "perm"])
                 if kind in ("and", "or"):
                     ops.append([kind, rnd.randrange(len(ops)), rnd.randrange(len(ops))])
-                elif kind == "reparse":
-                    ops.append(["reparse", rnd.randrange(len(ops))])
+                elif kind in ("reparse", "perm"):
+                    ops.append([kind, rnd.randrange(len(ops))])
                 else:
                     ops.append(["variant", rnd.randrange(len(ops)), rnd.randint(1, 3)])
         probe = rnd.randrange(len(ops))
@@ -328,7 +352,7 @@ def candidates(kind, case):
                 new.append(o)
             elif o[0] in ("and", "or"):
                 new.append([o[0], o[1] - (o[1] > k), o[2] - (o[2] > k)])
-            elif o[0] == "reparse":
+            elif o[0] in ("reparse", "perm"):
                 new.append([o[0], o[1] - (o[1] > k)])
             else:
                 new.append([o[0], o[1] - (o[1] > k), o[2]])
